@@ -20,7 +20,9 @@ RULE = ("Hypothesis-generated: problem dimension 1..4, objective, parameters, a 
         "counter with the objective. Oracle: notification count / order / content, no exception escapes, trial "
         "sequence, local-refinement evaluations and result equal to the same run without listeners (refineSolution "
         "on in a third of the cases that call Solve), console final report equals the solution. Trials are compared "
-        "with the values they had when they were delivered. "
+        "with the values they had when they were delivered. Generated listeners may have value equality and may inherit "
+        "their callbacks from an intermediate class; SolverParameters.startPoint may be set; in a sixth of the painter-free "
+        "cases the objective raises at its k-th evaluation (weak oracle: no trial is reported that was not evaluated). "
         "Non-trivial: (a non-overridden callback or a shipped listener) together with a batch of size > 1.")
 ASSUMPTIONS = [
     "objective probes made by painters inside callbacks are recognised by event number (between the first and the "
